@@ -105,6 +105,10 @@ def user_codecs():
     class TFile2(TFile1):
         R = "user.t2"
 
+    class TFileDup(TFile1):
+        """a file codec for T whose reference is already taken by the built-in pickle codec (a subclass that forgot ref())"""
+        R = "local.pickle"
+
     class TMem(CodecProtocol):
         """A CodecProtocol codec writes to the generic location itself."""
         R = "user.tc"
@@ -169,7 +173,7 @@ def user_codecs():
             DECODES.append(self.R)
             return Celsius.Reading(eval(d[len(self.R) + 1:].decode()))
 
-    return {"t1": TFile1, "t2": TFile2, "tc": TMem, "str": StrFile, "cel": CelsiusFile}
+    return {"t1": TFile1, "t2": TFile2, "tc": TMem, "str": StrFile, "cel": CelsiusFile, "dup": TFileDup}
 
 
 def values():
@@ -272,7 +276,7 @@ def apply(s, op):
     if op[0] == "register":
         if op[1] in s.registered:
             return probs
-        if s.kind == "dbfs" and op[1] == "tc":
+        if s.kind == "dbfs" and op[1] in ("tc", "dup"):
             return probs
         r = call(lambda: _register(s, op[1]))
         s.registered.append(op[1])
@@ -351,13 +355,14 @@ WINDOWS = [
     ["s_surr", "df_mixed", "s_ascii"], ["cel", "sur", "t"],
     ["s_ascii", "t", "b_bin"], ["s_empty", "none", "t2"], ["s_uni", "dict", "df"], ["s_big", "ba", "int"],
     ["s_nl", "b_empty", "obj"], ["s_anl", "s_sp", "b_big"], ["s_crlf", "t", "s_ascii"],
-    ["t_sub", "str_enum", "t"], ["bytes_sub", "dict_sub", "s_ascii"],
+    ["t_sub", "str_enum", "t"], ["bytes_sub", "dict_sub", "s_ascii"], ["t", "obj", "t2"],
 ]
 
 
 def alphabet(window, kind):
     ops = [("store", n) for n in window] + [("fetch", n) for n in window]
-    ops += [("register", c) for c in (("t1", "t2", "str", "tc") if "cel" not in window else ("cel", "t1"))] + [("restart",)]
+    regs = ("dup", "t1") if window[:2] == ["t", "obj"] else ("t1", "t2", "str", "tc") if "cel" not in window else ("cel", "t1")
+    ops += [("register", c) for c in regs] + [("restart",)]
     return ops
 
 
@@ -389,7 +394,7 @@ def run(tier, seed):
     res.violations.sort(key=lambda v: len(v.replay["ops"]))
     res.coverage = dict(states=states, transitions=trans, traces_validated_against_impl=trans, per_window=per,
                         exhaustive=all(p["closed"] for p in per),
-                        rule="BFS over {store, fetch} of a 3-value window x {register t1, t2 (second codec for the same type), str codec, "
+                        rule="BFS over {store, fetch} of a 3-value window x {register t1, t2 (second codec for the same type), str codec, a file codec reusing the built-in pickle reference, "
                              "CodecProtocol codec} x restart (fresh registry, same codecs registered in reverse order); 19 values: "
                              "str (empty, newline, CRLF, non-ASCII, 1 MiB), bytes, bytearray, None, int, dict, object, DataFrame, user type; "
                              "state = (value -> codec ref recorded in the meta record, registration order)",
